@@ -201,6 +201,8 @@ package nsqd
 //@   ensures[never-nil] result != nil
 //@   ensures[never-typed-nil] dyntype(result) == typetag("*net.TCPAddr") ==> unbox(result, "*net.TCPAddr") != nil
 //@   ensures[no-listener-empty-tcp-address] n.tcpListener == nil ==> dyntype(result) == typetag("*net.TCPAddr") && unbox(result, "*net.TCPAddr") != nil && fresh(unbox(result, "*net.TCPAddr")) && unbox(result, "*net.TCPAddr").Port == 0
+//   (round 5, area F; doInfo asks twice) with a listener the answer is that listener's fixed address; an address on network "tcp" is a *net.TCPAddr
+//@   ensures[the-listener-address] n.tcpListener != nil ==> result == r5FAddrOf(n.tcpListener) && (r4ENetworkOf(result) == "tcp" ==> dyntype(result) == typetag("*net.TCPAddr"))
 //@   modifies
 //@ func (n *NSQD) RealHTTPAddr() net.Addr
 //@   props C10
@@ -209,4 +211,6 @@ package nsqd
 //@   ensures[never-nil] result != nil
 //@   ensures[never-typed-nil] dyntype(result) == typetag("*net.TCPAddr") ==> unbox(result, "*net.TCPAddr") != nil
 //@   ensures[no-listener-empty-tcp-address] n.httpListener == nil ==> dyntype(result) == typetag("*net.TCPAddr") && unbox(result, "*net.TCPAddr") != nil && fresh(unbox(result, "*net.TCPAddr")) && unbox(result, "*net.TCPAddr").Port == 0
+//   (round 5, area F)
+//@   ensures[the-listener-address] n.httpListener != nil ==> result == r5FAddrOf(n.httpListener) && (r4ENetworkOf(result) == "tcp" ==> dyntype(result) == typetag("*net.TCPAddr"))
 //@   modifies
